@@ -382,6 +382,8 @@ def run_check(spec, tier, verif_seed, jobs, repo, runs_override=None, budget_ove
     replays = []
     try:
         for arm in spec['arms']:
+            if os.environ.get('VERIF_ONLY_ARM') and arm['name'] != os.environ['VERIF_ONLY_ARM']:
+                continue        # development aid; ./check then writes no evidence
             tcfg = dict(arm['tiers'][tier])
             if runs_override is not None:
                 tcfg['runs'] = runs_override
@@ -502,6 +504,9 @@ def run_check(spec, tier, verif_seed, jobs, repo, runs_override=None, budget_ove
                                                    (p.returncode, (p.stdout + p.stderr)[-1500:])})
 
     # report
+    if os.environ.get('VERIF_PRINT_PROBES'):
+        for name in ('ops', 'faults', 'probes'):
+            print('%s: %s' % (name, json.dumps(agg[name], sort_keys=True)))
     for kid, n in sorted(agg['known_seen'].items()):
         kf = [x for x in known if x['id'] == kid][0]
         print("KNOWN-FINDING: property=%s %s [%s] (seen %d times)" % (prop, kf['what'], kid, n))
